@@ -33,6 +33,7 @@ def seg_disk_area(x1, y1, x2, y2):
             if 0.0 < t < 1.0:
                 ts.append(t)
     ts.sort()
+    tol_r2 = max(1e-9, 1e-13 * a)
     tot = 0.0
     for t0, t1 in zip(ts[:-1], ts[1:]):
         ax, ay = x1 + dx * t0, y1 + dy * t0
@@ -41,9 +42,12 @@ def seg_disk_area(x1, y1, x2, y2):
         # a piece is a chord only if it also *ends* on/inside the circle: for
         # an edge tangent to the circle within rounding the discriminant can
         # come out <= 0 (no split) while the midpoint tests inside
+        # (the split points carry a rounding error that grows with the edge
+        # length in units of the ellipse's axes - thousands for tiny inner
+        # ellipses - hence the length-dependent allowance)
         if mx * mx + my * my < 1.0 \
-                and ax * ax + ay * ay <= 1.0 + 1e-9 \
-                and bx * bx + by * by <= 1.0 + 1e-9:
+                and ax * ax + ay * ay <= 1.0 + tol_r2 \
+                and bx * bx + by * by <= 1.0 + tol_r2:
             tot += 0.5 * (ax * by - bx * ay)
         else:
             tot += 0.5 * math.atan2(ax * by - ay * bx, ax * bx + ay * by)
